@@ -573,6 +573,10 @@ func (s *Server) handleRequest(ctx context.Context, req *Request) (*response, ht
 		return res, header, nil
 	}
 	res.Result = tuple[0].Interface()
+	if res.Result == nil {
+		// "result" is required on success: a nil result must be sent as null, not dropped by omitempty
+		res.Result = json.RawMessage("null")
+	}
 
 	return res, header, nil
 }
